@@ -72,6 +72,36 @@ let register (h : (string, string list -> string) Hashtbl.t)
      backup_step <file hex> <backup hex|none> <complete 0|1> <md5-of hex|none> <prot hex>
                  <event: E:<hex> | R:<out hex|FAIL>:<K0|K1.j|K2|K3|C>>
      -> admissible file backup complete md5 prot' *)
+  (* ---------------- Model D: configuration ----------------
+     cfg_load <line hex|-> ... (one argument per line; '-' = empty line); optional first arg "set:<name hex>:<value hex>" items
+     -> N=<non default count> | saved lines (hex, ';' separated) | diags "line:kind:opt;..." *)
+  let diag_str = function
+    | DUnterminated -> "unterminated:-" | DUnexpectedText -> "unexpected-text:-"
+    | DFewArgs c -> "few-args:" ^ hex_of_bytes c
+    | DUnknownOption n -> "unknown-option:" ^ hex_of_bytes n
+    | DUnknownType n -> "unknown-type:" ^ hex_of_bytes n
+    | DUnknownLang n -> "unknown-lang:" ^ hex_of_bytes n
+    | DBadValue o -> "bad-value:" ^ hex_of_bytes o
+    | DBadRef (o, r) -> "bad-ref:" ^ hex_of_bytes o
+    | DLess o -> "less:" ^ hex_of_bytes o
+    | DGreater o -> "greater:" ^ hex_of_bytes o
+    | DDeprecated n -> "deprecated:" ^ hex_of_bytes n
+    | DBadVersion -> "bad-version:-" | DEmptyInclude -> "empty-include:-" in
+  Hashtbl.replace h "cfg_load" (fun args ->
+    let sets = List.filter (fun a -> String.length a > 4 && String.sub a 0 4 = "set:") args in
+    let lines = List.filter (fun a -> not (String.length a > 4 && String.sub a 0 4 = "set:")) args in
+    let lines_b = List.map bytes_of_hex lines in
+    let printable = List.for_all line_printable lines_b in
+    if not printable then "NOTPRINTABLE" else
+    let (st, ds) = cfg_load cfg_init lines_b in
+    let (st, ds2) = List.fold_left (fun (st, acc) a ->
+        match String.split_on_char ':' a with
+        | [_; n; v] -> let (st', d) = cfg_set_option st (bytes_of_hex n) (bytes_of_hex v) in (st', acc @ List.map (fun x -> (O, x)) d)
+        | _ -> failwith "set arg") (st, []) sets in
+    let saved = String.concat ";" (List.map hex_of_bytes (cfg_save st)) in
+    let dstr = String.concat ";" (List.map (fun (ln, d) -> string_of_int (int_of_nat ln) ^ ":" ^ diag_str d) (ds @ ds2)) in
+    let incs = String.concat ";" (List.map hex_of_bytes st.includes) in
+    Printf.sprintf "N=%d | %s | %s | %s" (int_of_nat (cfg_non_default st)) saved dstr incs);
   Hashtbl.replace h "check_exit" (fun args ->
     match args with
     | [bits] ->
